@@ -117,6 +117,8 @@ def consumer_text(cons, n, ty, std):
         return "next()", (p, key)
     if cons == "nth":
         return "nth(%d)" % n, (p, key)
+    if cons in ("nth0", "nth4"):
+        return "nth(%s)" % cons[3], (p, key)
     if cons in ("position", "rposition"):
         return "%s(|%s| %s %% 2 == 0)" % (cons, p, key), None
     raise ValueError(cons)
